@@ -57,6 +57,18 @@ def main():
     ctx = Ctx(prop, tier, seed)
     checker_cmd = (f"cd lean && lake build Bec2Verif.Props.{prop} bec2model && "
                    f"lake env lean Bec2Verif/Audit/{prop}.lean")
+    # a check that does not finish is a defect of the check, not a verdict: exit 2 after the budget of the tier
+    import threading
+    budget = int(os.environ.get("VERIF_BUDGET_S", "1500" if tier == "quick" else "14400"))
+
+    def _overrun():
+        print(f"[{prop}] INTERNAL ERROR: the check did not finish within {budget} s", flush=True)
+        import faulthandler
+        faulthandler.dump_traceback()
+        os._exit(2)
+    wd = threading.Timer(budget, _overrun)
+    wd.daemon = True
+    wd.start()
     try:
         mod = importlib.import_module(prop.lower())
         ctx.trusted_base = list(getattr(mod, "TRUSTED", []))
@@ -134,4 +146,8 @@ def main():
 
 
 if __name__ == "__main__":
-    sys.exit(main())
+    code = main()
+    sys.stdout.flush()
+    if core._POOL is not None:
+        core._POOL.terminate()
+    os._exit(code)
